@@ -17,6 +17,7 @@ import (
 	"errors"
 	"fmt"
 	"math/rand/v2"
+	"runtime"
 	"sort"
 	"strings"
 	"sync"
@@ -301,7 +302,7 @@ func c15RunHistory(r *verifkit.Run, w *verifkit.Worker, idx, nOps int) {
 	h.db = db
 	defer func() {
 		if h.db != nil {
-			_ = h.db.Close()
+			_ = mdkClose(h.db)
 		}
 	}()
 	g := &mdkGen{rnd: rnd, m: h.m}
@@ -321,7 +322,7 @@ func c15RunHistory(r *verifkit.Run, w *verifkit.Worker, idx, nOps int) {
 		case k < 4:
 			h.readBack(2)
 		case k == 4:
-			if err := h.db.Close(); err != nil {
+			if err := mdkClose(h.db); err != nil {
 				h.viol("reopen/close-error", err.Error(), nil)
 				h.db = nil
 				return
@@ -381,6 +382,7 @@ func TestVerifC15Hist(t *testing.T) {
 			w.Count("histories", 1)
 		}
 	})
+	r.SetCounter("goroutines_at_end", int64(runtime.NumGoroutine()))
 }
 
 // ---------------------------------------------------------------------------------------
@@ -459,7 +461,7 @@ func c15ConcRound(r *verifkit.Run, round, racers int) {
 		r.Inconclusive("cannot open database: " + err.Error())
 		return
 	}
-	defer db.Close()
+	defer mdkClose(db)
 	ctx := context.Background()
 
 	// sequential prefix: a few entities with some history
